@@ -320,7 +320,7 @@ def random_ode_case(r, name, nmax=None):
         if ph:
             case['prehistory'] = ph
     case['ic_container'] = r.choice(['list', 'list', 'set', 'tuple', 'frozenset', 'dictkeys'])
-    if desc['labels'] in ('tuple', 'mixed') and case['ic_container'] == 'tuple':
+    if desc['labels'] in gen.CONTAINER_LIKE and case['ic_container'] == 'tuple':
         case['ic_container'] = 'list'
     if case['tmin'] < 0 and r.random() < 0.35:
         case['tspan'] = -case['tmin']        # tmax == 0 exactly
